@@ -32,14 +32,20 @@ Section AnyObserver.
       apply Forall_app. now split. }
     destruct a as [m| |]; [|exact (Hflush E)|exact (Hflush E)].
     unfold feed_rtmp_message in E. destruct (fq_done (x_filter x)).
-    - destruct (on_pop_is_pure O obs_decide obs_apply (x_core x) o m) as [d Hd].
-      destruct (on_pop O obs_decide obs_apply (x_core x) o m) as [[s1 o1] evs].
-      injection E as <- <- <-. unfold wf_inv. cbn [x_core x_filter]. rewrite ts_events_app, ts_events_map.
+    - destruct (late_track_spec (x_filter x) m) as (_ & Ldata & _).
+      destruct (late_track (x_filter x) m) as [f' pp]. cbn [fst] in Ldata.
+      set (o0 := match pp with Some b => obs_patpmt o b | None => o end) in *.
+      destruct (on_pop_is_pure O obs_decide obs_apply (x_core x) o0 m) as [d Hd].
+      destruct (on_pop O obs_decide obs_apply (x_core x) o0 m) as [[s1 o1] evs].
+      injection E as <- <- <-. unfold wf_inv. cbn [x_core x_filter]. rewrite Ldata.
+      assert (Hev : ts_events (outs ++ match pp with Some b => [OutPatPmt b] | None => [] end ++ map OutTs evs) = ts_events outs ++ evs).
+      { rewrite !ts_events_app, ts_events_map. destruct pp; cbn; reflexivity. }
+      rewrite Hev.
       destruct (on_pop_wf _ _ _ _ _ Hw Ha Hd) as [Hw1 He1]. split; [exact Hw1|]. split; [|exact Hq].
       apply Forall_app. now split.
     - set (a1 := if rm_type m =? type_audio then Z.of_N (pb m 0 / 16) else fq_acodec (x_filter x)) in *.
       set (v1 := if rm_type m =? type_video then Z.of_N (video_codec_id m) else fq_vcodec (x_filter x)) in *.
-      set (f1 := mk_tsfilt (fq_data (x_filter x) ++ [m]) a1 v1 false) in *.
+      set (f1 := mk_tsfilt (fq_data (x_filter x) ++ [m]) a1 v1 false (fq_version (x_filter x))) in *.
       assert (Hq1 : Forall msg_ok (fq_data (x_filter x) ++ [m])).
       { apply Forall_app. split; [exact Hq|]. constructor; [exact Ha|constructor]. }
       assert (Hdrain : drain O obs_decide obs_apply obs_patpmt x o f1 = (x', o', outs') -> wf_inv x' (outs ++ outs')).
